@@ -1,6 +1,6 @@
 (* Links between the judge of C07Judge.v and the theorems of LayerProofs.v, and the refutation
    witnesses (evaluated with vm_compute) for the ill-behaved interceptors and seed hooks. *)
-From SC Require Import Base.Prelude Alias.Owned Alias.OwnedProofs Alias.LayerProofs Alias.TraitProofs Alias.C07Judge.
+From SC Require Import Base.Prelude Alias.Owned Alias.OwnedProofs Alias.LayerProofs Alias.TraitProofs Alias.Nested Alias.NestedProofs Alias.C07Judge.
 
 Local Open Scope Z_scope.
 
@@ -12,10 +12,12 @@ Definition icode_proved_before (c : icode) : bool :=
   match c with IUnion _ _ _ _ | IRemove _ _ _ | IMeta _ _ _ => true | _ => icode_proved c end.
 Definition scode_proved (c : scode) : bool :=
   match c with SId | SClear _ => true | SClearV0 _ => false end.
+Definition rcode_proved (c : rcode) : bool := match c with RAsm _ _ => true | RAsmV0 _ _ => false end.
 Definition cop_proved (c : cop) : bool :=
   match c with
   | CWrite _ arg _ _ _ ib ia => arg_wf arg && icode_proved_before ib && icode_proved ia
   | CPull _ _ h => scode_proved h
+  | CRead r => rcode_proved r
   | _ => true
   end.
 
@@ -50,6 +52,7 @@ Proof.
   - rewrite !andb_true_iff. intros [[A B] C]. split; auto.
     split; [apply (icode_proved_before_wb ib B) | apply (icode_proved_wb ia C)].
   - intro H. apply (scode_proved_wb hook H).
+  - destruct r; simpl; [intros _; apply wb_read_assembled | discriminate].
 Qed.
 
 Lemma cops_proved_ok ops : forallb cop_proved ops = true -> Forall op_ok (map cop_op ops).
@@ -102,9 +105,15 @@ Lemma model_reads_pure st c : inv st -> is_read c = true -> cop_proved c = true 
   store st' = store st /\ store_changed st st' = false /\ changed fuel st st' = [].
 Proof.
   intros Hi Hr Hp st'.
-  assert (Hro : is_read_op (cop_op c)).
-  { destruct c; simpl in *; try discriminate; auto. apply (scode_proved_wb hook Hp). }
-  destruct (reads_pure fuel st (cop_op c) Hro) as [Hst [_ Hoa]]. fold st' in Hst, Hoa.
+  assert (Hro : (exists rf, cop_op c = ORead rf /\ pure_read_inv rf) \/ is_read_op (cop_op c)).
+  { destruct c; simpl in *; try discriminate; auto.
+    - right. apply (scode_proved_wb hook Hp).
+    - destruct r; simpl in *; [|discriminate]. left. eexists; split; [reflexivity | apply pure_read_inv_assembled]. }
+  assert (Hpure : store st' = store st /\ only_allocs (hs st) (hs st')).
+  { destruct Hro as [(rf & E & Hrf)|Hro].
+    - unfold st'. rewrite E. apply model_read_pure; auto.
+    - apply reads_pure; auto. }
+  destruct Hpure as [Hst [_ Hoa]].
   assert (Hsame : forall t, snd t < nxt (hs st) -> same fuel (hp (hs st)) (hp (hs st')) t t = true).
   { intros t Ht. eapply same_frame_all; eauto. apply Hi. }
   split; auto. split.
@@ -187,3 +196,91 @@ Lemma w_repaired_in_fragment :
   forallb cop_proved (w_parent_remove false) = true /\ forallb cop_proved (w_parent_union false) = true /\
   forallb cop_proved (w_metadata false) = true /\ forallb cop_proved (w_enterleave false) = true.
 Proof. vm_compute. auto. Qed.
+
+(* ---- assembled responses and shared list elements ---- *)
+(* two positions {open_percent, direction}; GetPosition(1) (no mask: the stored message);
+   GetPositions(read_mask = states.open_percent) = field 1 of the response, field 1 of each element *)
+Definition w_pos (pct dir : Z) : list cell := [CNode [(1, pct); (4, dir)] [] []].
+Definition w_mask_nested : nmask := NM [(1, NM [(1, NM [])])].
+Definition w_mask_top : nmask := NM [(1, NM [])].
+Definition w_assembled (v0 : bool) (m : option nmask) : list cop :=
+  [CWrite 1 (w_pos 40 1) true None (MUpdate true) INone INone;
+   CWrite 2 (w_pos 10 2) true None (MUpdate true) INone INone;
+   CGet 1 None; CRead (RAsm 1 None);
+   CRead (if v0 then RAsmV0 1 m else RAsm 1 m); CRead (RAsm 1 None)].
+
+(* in place with a path that continues into the repeated field: the stored positions, the earlier
+   GetPosition result and the earlier unmasked GetPositions result lose their other fields *)
+Lemma w_assembled_v0_fails :
+  forallb cop_guard (w_assembled true (Some w_mask_nested)) = true /\
+  model_ok true (w_assembled true (Some w_mask_nested)) = false.
+Proof. vm_compute. auto. Qed.
+(* ... a read that reports a store mutation *)
+Lemma w_assembled_v0_storemut :
+  existsb o_storemut (model_trace (init_state true) (w_assembled true (Some w_mask_nested))) = true.
+Proof. vm_compute. auto. Qed.
+Lemma w_assembled_ok :
+  forallb cop_proved (w_assembled false (Some w_mask_nested)) = true /\
+  model_ok true (w_assembled false (Some w_mask_nested)) = true /\
+  model_ok true (w_assembled false None) = true /\
+  (* in place but with a mask that stays on the top level: harmless, as r_assembled_v0_top_level_pure says *)
+  model_ok true (w_assembled true (Some w_mask_top)) = true.
+Proof. vm_compute. auto. Qed.
+(* the unmasked assembled response shares the stored messages: its element IS the stored message *)
+Lemma w_assembled_shares :
+  let st := run fuel (init_state true) (map cop_op (w_assembled false None)) in
+  match nth_error (snaps st) 5, fget 1 (store st) with
+  | Some r, Some t => match get_rep (hs st) r 1 with
+                      | Some (a, len) => existsb (tag_eqb t) (elems (hs st) a len)
+                      | None => false
+                      end
+  | _, _ => false
+  end = true.
+Proof. vm_compute. auto. Qed.
+
+(* seeded change C07-r3-2: slices.Clone(old.Traits) instead of proto.Clone(old) - the array is new,
+   the elements are the stored ones and Merge writes into them *)
+Definition w_metadata_slice_clone : list cop :=
+  [CWrite 0 w_md1 true None MSet INone INone; CGet 0 None;
+   CWrite 0 w_md2 true None MSet (IMetaSliceClone 2 1) INone].
+Lemma w_metadata_slice_clone_fails :
+  forallb cop_guard w_metadata_slice_clone = true /\ model_ok false w_metadata_slice_clone = false.
+Proof. vm_compute. auto. Qed.
+
+(* ---- the judge against the model: what agreement implies inside the proved fragment ---- *)
+Lemma list_eqb_Z a : forall b, list_eqb Z.eqb a b = true -> a = b.
+Proof.
+  induction a as [|x a IH]; intros [|y b]; simpl; try discriminate; auto.
+  rewrite andb_true_iff, Z.eqb_eq. intros [-> H]. f_equal. auto.
+Qed.
+
+(* per step: no wrong event value, a read changes neither the store nor any snapshot, and whatever is
+   reported as changed is a message the caller owns (an argument it passed) - never a library message *)
+Fixpoint lib_quiet (st : state) (ops : list cop) (obs : list obs1) : Prop :=
+  match ops, obs with
+  | c :: ops', o :: obs' =>
+      o_evbad o = false /\
+      (is_read c = true -> o_storemut o = false /\ o_changed o = []) /\
+      (forall i, In i (o_changed o) -> exists p, In (i, p) (zip_index 0 (snaps st)) /\ fst p = Caller) /\
+      lib_quiet (step fuel st (cop_op c)) ops' obs'
+  | _, _ => True
+  end.
+
+Theorem judge_sound_lib : forall ops obs st, inv st -> forallb cop_proved ops = true ->
+  agrees_from st ops obs = true -> lib_quiet st ops obs.
+Proof.
+  induction ops as [|c ops IH]; intros [|o obs] st Hi Hp Ha; simpl; auto.
+  simpl in Hp. apply andb_true_iff in Hp. destruct Hp as [Hc Hp].
+  cbn [agrees_from] in Ha. unfold model_obs in Ha.
+  apply andb_true_iff in Ha. destruct Ha as [Ha Hrest]. apply andb_true_iff in Ha. destruct Ha as [Ho _].
+  unfold obs_eqb in Ho. cbn [o_nsnaps o_changed o_storemut o_evbad] in Ho.
+  apply andb_true_iff in Ho. destruct Ho as [Ho Hev]. apply andb_true_iff in Ho. destruct Ho as [Ho Hsm].
+  apply andb_true_iff in Ho. destruct Ho as [_ Hch]. apply list_eqb_Z in Hch.
+  apply Bool.eqb_prop in Hev. apply Bool.eqb_prop in Hsm.
+  assert (Hok : op_ok (cop_op c)) by (apply cop_proved_ok; auto).
+  split; [auto|]. split; [|split].
+  - intro Hr. destruct (model_reads_pure st c Hi Hr Hc) as (_ & A & B).
+    rewrite Hr in Hsm. rewrite <- Hsm, <- Hch. auto.
+  - intros i Hin. rewrite <- Hch in Hin. apply (model_lib_unchanged fuel st (cop_op c) Hi Hok i Hin).
+  - apply IH; auto. apply step_good; auto.
+Qed.
